@@ -17,7 +17,7 @@ def run_sg(prop, tier, seed, what):
         if rel:
             build_harness(release=True)
         tp = os.path.join(OUT, "traces", "%s-sg.ndjson" % prop)
-        evs = vh_trace(["sg-random", "--prop", prop, "--seed", seed + (500 if rel else 0), "--segments", 240 if th else 48, "--len", 110 if th else 70], tp, release=rel)
+        evs = vh_trace(["sg-random", "--prop", prop, "--seed", seed + (500 if rel else 0), "--segments", 1200 if th else 48, "--len", 140 if th else 70], tp, release=rel)
         run.sample({"events": [{k: v for k, v in e.items() if k not in ("per", "pairs")} for e in evs[1:6]]})
         res = validate_trace(TRACE, "SGTrace.cfg", evs, prop.lower() + "sg", parallel=10, chunk_events=3000, timeout=900)
         run.add_validation("%s random histories (%s)" % (what, "release" if rel else "debug"), res)
